@@ -27,7 +27,7 @@ func init() {
 	props["C11"] = &propDef{
 		header:    "From BE Require Import Corr.CheckC11.",
 		headers:   map[string]string{"E": "From BE Require Import Corr.CheckE2E.", "R": "From BE Require Import Corr.CheckRr."},
-		rule:      "exhaustive boundary grid (doc in 24 boundary values x idx,size in 11 boundary values) plus seeded random triples, entry pairs, roaring pairs and casts; through build and retrieval: every boundary id alone and together with the other in-range boundary ids as documents of 1..4 conjunctions (include-only, exclude-only, mixed) on the k-groups and compact indexes (Retrieve and the recording collector) and on the roaring index (Retrieve, RetrieveDocs, GetRawResult, WithHint with the extreme ids), ids just outside the range offered to AddDocument; documents of 255, 256, 257 and 300 conjunctions (positions at and beyond the last encodable one); a case is non-trivial when the ids involved are accepted and non-zero (conj/rr), when both conjunction ids are < 2^60 (entry), always for casts, when some retrieval returns a non-empty proper subset (through retrieval); distinct = distinct input",
+		rule:      "exhaustive boundary grid (doc in 24 boundary values x idx,size in 11 boundary values) plus seeded random triples, entry pairs, roaring pairs and casts; through build and retrieval: every boundary id alone and together with the other in-range boundary ids as documents of 1..4 conjunctions (include-only, exclude-only, mixed) on the k-groups and compact indexes (Retrieve and the recording collector) and on the roaring index (Retrieve, RetrieveDocs, GetRawResult, WithHint with the extreme ids), ids just outside the range offered to AddDocument; documents of 255, 256, 257 and 300 conjunctions (positions at and beyond the last encodable one); conjunctions of 127..255 include fields sharing posting lists with small ones; a case is non-trivial when the ids involved are accepted and non-zero (conj/rr), when both conjunction ids are < 2^60 (entry), always for casts, when some retrieval returns a non-empty proper subset (through retrieval); distinct = distinct input",
 		shardSize: 1500,
 		gen: func(tier string, r *Rand, add func(in interface{})) {
 			for _, d := range docs {
@@ -241,6 +241,22 @@ func c11Retrieval(tier string, r *Rand, ids []int64, add func(in interface{})) {
 					c.Ops = append(c.Ops, rOp{S: 0, Op: "reset"}, rOp{S: 0, Op: []string{"retrieve", "docs"}[i%2], A: q.A}, rOp{S: 0, Op: "raw"})
 				}
 				add(c)
+			}
+		}
+		// conjunction sizes up to the last encodable one (255 include fields) sharing posting lists with small
+		// conjunctions: entries must order by size first
+		if kind != "rr" {
+			for _, nf := range []int{127, 128, 129, 200, 255} {
+				var big eConj
+				var all []eAssign
+				for f := 0; f < nf; f++ {
+					big = append(big, eExpr{F: f, Inc: true, V: ivs(1)})
+					all = append(all, eAssign{F: f, V: iv(1)})
+				}
+				docs := []eDoc{{ID: 9, Cons: []eConj{big}}, {ID: -7, Cons: []eConj{{{F: 0, Inc: true, V: ivs(1)}}}},
+					{ID: 8, Cons: []eConj{{{F: 0, Inc: true, V: ivs(1)}, {F: 1, Inc: true, V: ivs(1)}}, {{F: 3, Inc: false, V: ivs(1)}}}}}
+				qs := []eQuery{{A: []eAssign{{F: 0, V: iv(1)}}}, {A: all}, {A: all[:2]}, {A: all[:nf-1]}, {A: []eAssign{{F: 5, V: iv(2)}}}}
+				add(eCase{Kind: kind, Policy: "error", Docs: docs, Queries: qs})
 			}
 		}
 		n := 20
